@@ -1,5 +1,5 @@
 """C07 - GT exponentiation (partial claim: sampling range + constants)."""
-from .. import reject, consts, scalar
+from .. import guards, reject, consts, scalar
 from ..facts import strip, walk, loc_str
 from .. import pathrules as pr
 from .. import ranges
@@ -18,6 +18,8 @@ def run(ctx):
     ctx.level = 'other'
     ctx.assumptions = ['the exponentiation arithmetic is not decided']
     for cfg, prog in ctx.programs().items():
+        n = guards.rule_defout(ctx, cfg, prog, name_filter=lambda f: 'Fq12' in f['qn'] or 'exponentiate' in f['qn'])
+        ctx.floor('R-DEFOUT accumulation functions[%s]' % cfg, n, 3)
         reject.rule_powers_of_x(ctx, cfg, prog)
         consts.rule_pairing_constants(ctx, cfg, prog)
         fs = [f for f in prog.fn_by_qn(NS + 'Fq12::exponentiate_gt') if 'PowersOfX' in f['params'][1]['t']['s']]
